@@ -228,14 +228,18 @@ def look_op(rng):
 
 class C15(Spec):
     id = 'C15'; engine = 'text'; harness = 'h_text'; driver = 'drv_text'
-    generators = ('Text',)
+    generators = ('Text', 'TextScan')
     harness_timeout = 600
     technique = ('Lean 4 proof by induction over byte strings, digit lists (bases 8, 10, 16) and item sequences about a model of String_Show/String_Look, '
                  'the integer conversions of printf/scanf for every length modifier, the integer branch of scan_from_with (which object scanf stores into, '
                  'how it is widened) and the position accounting of scan_from_with; exact rational arithmetic (Mathlib Q) about round-half-even, the '
                  'nearest-binary64/binary32 rounding of strtod/strtof and the six-decimal rounding of %f for the Float value clause; escape tables, '
                  'delimiters, the reader\'s control-flow flag, the arms of the integer branch and the double/float test regenerated from the source each '
-                 'run; differential check against the real library (String and File sinks) with a direct C oracle')
+                 'run; extension round: how every branch of scan_from_with moves pos (`%$` assigns the absolute position look_from returns, the numeric branches '
+                 'add the %n count, the literal branch reads the run and adds its length), show_to / look_from, the formats of Num.c as bytes cut by the '
+                 'model\'s scanners, and the C types of the character path (char tmp, char* v, (char)c_int(chr)) extracted as data (generator TextScan) '
+                 'into a second, parametrised model (Cello/TextScan.lean) that the driver runs and that is proved equal to the first on byte inputs; '
+                 'differential check against the real library (String and File sinks) with a direct C oracle')
     level_text = ('Theorems C15_string_roundtrip / C15_int_roundtrip / C15_intspec_roundtrip / C15_sequence_roundtrip / C15_format_roundtrip / C15_float_consumed / '
                   'C15_float_value / C15_float_within / C15_float_e_within / C15_float_e_narrow_partial / C15_float_items / C15_calls_compose: for every NUL-free byte string, every int64 under %$ and under each of the 54 '
                   'specifications %[hh|h|l|ll|j|z|t|q][d|i|o|u|x|X], every finite double under %$ and %[l][f|F|e|E|g|G], and every sequence of them with '
@@ -249,7 +253,13 @@ class C15(Spec):
                   '`%%` advance, the arms of the integer branch (test on fmt_buf, width of the object, widening) and the double/float test are extracted '
                   'from the source on every run and the theorems are re-checked against them (C15_int_arms fails on the pre-9114264 branch); the model is tied '
                   'to the real functions by running tens of thousands of values and sequences (all 255 byte values, boundary integers of every width, doubles '
-                  'over the whole exponent range, float values) on both.')
+                  'over the whole exponent range, float values) on both. Extension round: C15_scan_branches (decided on the data extracted by generator TextScan: '
+                  '`%$` assigns what look_from returns, numeric branches add the %n count, the literal branch reads the input, Num.c formats are single '
+                  'specifications %li / %f / %lf, character objects are 8-bit chars, tables are ASCII), C15_sequence_roundtrip_source (the sequence round trip '
+                  'for the parametrised model printItemsX / scanItemsX at srcX that the driver runs, for byte inputs; C15_sequence_roundtrip_direct for show_to / look_from called directly), C15_char_path / '
+                  'C15_string_roundtrip_chars (bytes >= 128 travel as negative chars through $I(*v) / %c / char tmp / (char)c_int(chr) and come back), '
+                  'C15_dollar_adds_refuted / C15_literal_unread_refuted (the classes of seeds c15_d c15_k / c15_f c15_j fail in the model), '
+                  'C15_look_instances (exactly Int, Float, String have a reader), C15_show_look_dispatch (show_to / look_from / macros pinned).')
     level_note = ('per clause — String: proved. Int (%$, all 54 integer specifications, all int64, ranges of each width): proved. Float value under %$ / %lf / %lF: '
                   'proved (C15_float_value, C15_float_within; the former def C15_float_value_statement is now a theorem). Float under %f / %F without l: known finding '
                   'KF-C15-float-spec-narrow (scan_from_with stores through a float): refuted for 123456789.123456 and 1.5e300 (C15_float_narrow_refuted), proved for '
@@ -271,7 +281,7 @@ class C15(Spec):
             '(in contract, and deliberately out of contract for the correspondence only); damaged String_Show text, integer text with prefixes / overflow / signs / hexadecimal digits, '
             'decimal floating text with exponents. non-trivial = a distinct op line whose observation shows a value read back (R: successful read of >= 1 value '
             'at start > 0, or from a File, or with an escape / sign / fraction in the text, or of >= 2 values; K: an exception or a non-zero position).')
-    trusted_base = ('translate/g_text.py generator Text (regular expressions over String_Show / String_Look / Num.c / Show.c)',
+    trusted_base = ('translate/g_text.py generators Text and TextScan (regular expressions over String_Show / String_Look / Num.c / Show.c / Cello.h)',
                     'harness/h_text.c + lean/Driver/Text.lean (correspondence is testing)',
                     'glibc printf %[hh h l ll j z t q][d i o u x X], "%f" "%e" "%g", "%c" and scanf of the same integer specifications, %[l][f e g], "%c", "%n", literal matching: modelled (Cello/Text.lean), validated by the runs, not verified',
                     'arguments are modelled as values (Cello object headers, c_int / c_float / c_str dispatch are properties C08 / C19); an int64_t passed to printf for a narrower specification is read as libc reads it on x86-64')
@@ -362,8 +372,23 @@ class C15(Spec):
                 acc['roundtrips'] = acc.get('roundtrips', 0) + 1
                 acc['from_' + ('File' if t[1] == 'F' else 'String')] = acc.get('from_' + ('File' if t[1] == 'F' else 'String'), 0) + 1
                 acc['mode_' + t[3]] = acc.get('mode_' + t[3], 0) + 1
-                for it in t[4:]:
+                for j, it in enumerate(t[4:]):
                     k = it.split('=')[0]; acc['item_' + k] = acc.get('item_' + k, 0) + 1
+                    # branch counters of the extension round (scan_from_with branches / character path, Cello/TextScan.lean)
+                    v = it.split('=', 1)[1] if '=' in it else ''
+                    if k in ('s', 'i', 'f'):
+                        if t[2] != '0' or j > 0: acc['branch_dollar_at_nonzero_pos'] = acc.get('branch_dollar_at_nonzero_pos', 0) + 1
+                        else: acc['branch_dollar_at_pos_0'] = acc.get('branch_dollar_at_pos_0', 0) + 1
+                        if k != 's': acc['branch_num_look_via_format'] = acc.get('branch_num_look_via_format', 0) + 1
+                    if k == 's' and any(int(v[q:q + 2], 16) >= 128 for q in range(0, len(v) - 1, 2)):
+                        acc['branch_char_negative'] = acc.get('branch_char_negative', 0) + 1
+                    if k == 't':
+                        sp = all(int(v[q:q + 2], 16) in (32, 9, 10, 11, 12, 13) for q in range(0, len(v) - 1, 2))
+                        key = 'branch_lit_' + ('File' if t[1] == 'F' else 'String') + ('_space_only' if sp else '_text')
+                        acc[key] = acc.get(key, 0) + 1
+                    if k == 'pc': acc['branch_pct'] = acc.get('branch_pct', 0) + 1
+                    if k[0] == 'I' or k in ('li', 'ld'): acc['branch_int_spec'] = acc.get('branch_int_spec', 0) + 1
+                    if k[0] == 'F' or k == 'lf': acc['branch_float_spec'] = acc.get('branch_float_spec', 0) + 1
                 if t[2] != '0': acc['start_nonzero'] = acc.get('start_nonzero', 0) + 1
             elif t[0] == 'K':
                 acc['looks_' + t[3]] = acc.get('looks_' + t[3], 0) + 1
